@@ -165,9 +165,12 @@ def bounded_refute(ob):
 
 
 def run_cvc5(smt2, timeout=None):
+    """Second back end: cvc5 1.4.0 (the wheel of the tooling venv, driven through pyvc/cvc5_run.py in a child
+    process so that it can be killed).  /usr/bin/cvc5 (Debian, 1.0.3) is NOT used: its handling of re.diff /
+    re.comp is unsound - it answers unsat for (str.in_re "t" (re.diff (re.range "a" "z") (re.range "c" "d"))) - which
+    the thorough tier's cross-check exposed as a disagreement with z3."""
+    import sys
     timeout = timeout or CVC5_TIMEOUT_S
-    if not os.path.exists('/usr/bin/cvc5'):
-        return 'unknown'
     txt = smt2
     if '(set-logic' not in txt:
         txt = '(set-logic ALL)\n' + txt
@@ -175,10 +178,11 @@ def run_cvc5(smt2, timeout=None):
         fp.write(txt)
         path = fp.name
     try:
-        p = subprocess.run(['/usr/bin/cvc5', '--strings-exp', f'--tlimit={timeout * 1000}', path],
-                           capture_output=True, text=True, timeout=timeout + 5)
+        runner = os.path.join(os.path.dirname(os.path.abspath(__file__)), 'cvc5_run.py')
+        p = subprocess.run([sys.executable, runner, path, str(timeout * 1000)],
+                           capture_output=True, text=True, timeout=timeout + 10)
         out = p.stdout.strip().splitlines()
-        return out[0].strip() if out else 'unknown'
+        return out[0].strip() if out and out[0].strip() in ('sat', 'unsat', 'unknown') else 'unknown'
     except Exception:
         return 'unknown'
     finally:
